@@ -73,6 +73,15 @@ fn structured(other_keys: &[Vec<u8>]) -> Vec<FinalReply> {
         FinalReply::Offset(2),
         FinalReply::Offset(-1),
         FinalReply::Offset(256),
+        FinalReply::SealedPrefix(0),
+        FinalReply::SealedPrefix(1),
+        FinalReply::SealedPrefix(2),
+        FinalReply::SealedPrefix(16),
+        FinalReply::SealedPrefix(32),
+        FinalReply::SealedPrefix(64),
+        FinalReply::SealedWithTrailing(1),
+        FinalReply::SealedWithTrailing(3),
+        FinalReply::SealedWithTrailing(300),
     ];
     for k in other_keys {
         v.push(FinalReply::OtherCertificate(k.clone()));
@@ -130,6 +139,15 @@ impl Prop for C01 {
                 };
                 for r in structured(&others) {
                     cs.push(Case { cfg_id: ci, cert, reply: r });
+                }
+                // every proper prefix of the value, correctly sealed (the value must be compared as a whole)
+                let klen = match cert {
+                    Cert::B => key_b.len(),
+                    Cert::M => key_m.len(),
+                    _ => key_a.len(),
+                };
+                for n in (0..klen).step_by(if full { 1 } else { 29 }) {
+                    cs.push(Case { cfg_id: ci, cert, reply: FinalReply::SealedPrefix(n) });
                 }
                 let step = if full { 1 } else { 13 };
                 for bit in (0..len * 8).step_by(step) {
